@@ -72,7 +72,14 @@
 (*    mol = 8 % of that element, and <= 1e-6 in_e above 1e-7 mol).  The    *)
 (*    library therefore conserves every element to the solver's absolute   *)
 (*    tolerance, not to a relative one; an element below ~1e-13 mol is     *)
-(*    beyond what this clause can see.  (The former floor "1e-9 of the     *)
+(*    beyond what this clause can see.  A fourth term, 4 ulp of the        *)
+(*    LARGEST AMOUNT of the composition, covers the solver's arithmetic:   *)
+(*    SLSQP updates the whole vector x <- x + alpha d with d from an LSQ   *)
+(*    factorisation, so every amount carries an absolute rounding error of *)
+(*    the order of one ulp of the largest one (measured: a 1e-12 mol       *)
+(*    element beside 2e6 mol is off by 1e-12 = 0.002 ulp(2e6); 6e-13       *)
+(*    beside 8.5e3 mol = 0.3 ulp).  At amounts of order 1 this term is     *)
+(*    1e-15 and does not matter.  (The former floor "1e-9 of the           *)
 (*    largest element total" is gone: it would have accepted the complete  *)
 (*    loss of a 4e-9 mol element beside 1 mol of carrier.)                 *)
 (*    FractionsSumToOne 1e-7.                                              *)
@@ -104,6 +111,7 @@ AbsFloor == <<1, -9>>     \* ForcedSmall: "cannot be formed" = below this fracti
 RelAtoms == <<1, -6>>     \* AtomsConserved: relative to the element's own feed total
 SolverAbs == <<1, -13>>   \* AtomsConserved: 10 * ftol, SLSQP's absolute constraint tolerance (acc = ftol = 1e-14)
 Ulp64 == <<142, -16>>     \* 64 * 2^-52: rounding floor of a double-precision sum, per unit of its largest term
+Ulp4 == <<89, -17>>       \* 4 * 2^-52: rounding of the solver's vector updates, per unit of the largest amount
 Keep == <<1, -3>>         \* a consumed species must keep this fraction of its amount
 
 Range(s) == {s[i] : i \in 1..Len(s)}
@@ -122,10 +130,12 @@ ElemSumOK(x, E, j, want) ==
    IN CloseIn(SumSeq(terms), want, Range(terms), 6)
 \* AtomsConserved, judged per element against that element's OWN feed total:
 \*   |out_e - in_e| <= RelAtoms * in_e + SolverAbs + 64 ulp of the largest term of the sum
+\*                     + 4 ulp of the largest amount of the composition
 ElemConserved(x, E, j, want) ==
    LET terms == [i \in 1..Len(x) |-> Mul(x[i], I(E[i][j]))]
        big == DMax(MaxSeq([i \in 1..Len(x) |-> DAbs(terms[i])]), DAbs(want))
-       bound == Add(Add(Mul(RelAtoms, DAbs(want)), SolverAbs), Mul(Ulp64, big))
+       xmax == MaxSeq([i \in 1..Len(x) |-> DAbs(x[i])])
+       bound == Add(Add(Mul(RelAtoms, DAbs(want)), SolverAbs), Add(Mul(Ulp64, big), Mul(Ulp4, xmax)))
    IN Le(DAbs(Sub(SumSeq(terms), want)), bound)
 InitClauses(e) ==
    IF e.raised THEN {"Raises"}
